@@ -41,14 +41,15 @@ def _tail(e):
 
 def method_src(name, dk, label):
     sig = lsig(label)
+    head = f"{DECO[dk]}    def {name}(self, x: K{sig}):\n"
+    nxt = ("        try:\n            r = call_next(x)\n"
+           "        except Exception as e:\n            r = _tail(e)\n")
     if lkind(label) == 1:
-        call, mark = f"recurse(K{PARENT[sig]}())", f"(({label}, self.tag), 'R')"
-    else:
-        call, mark = "call_next(x)", f"(({label}, self.tag),)"
-    return (f"{DECO[dk]}    def {name}(self, x: K{sig}):\n"
-            f"        try:\n            r = {call}\n"
-            f"        except Exception as e:\n            r = _tail(e)\n"
-            f"        return {mark} + r\n")
+        # recurse on the bound method (an instance of the parent probe class), then go on down the resolution order
+        return (head + f"        try:\n            q = recurse(K{PARENT[sig]}())\n"
+                "        except Exception as e:\n            q = _tail(e)\n" + nxt +
+                f"        return (({label}, self.tag), 'R') + q + ('|',) + r\n")
+    return head + nxt + f"        return (({label}, self.tag),) + r\n"
 
 
 _serial = [0]
@@ -93,7 +94,7 @@ class Run:
             owners = [self.owner(b, nm) for b in objs]
             defs = [[d[1], lsig(d[2]), d[2]] for d in st["body"] if d[0] == ni]
             names.append([owners, defs])
-        return [0, int(st["mc"]), names]
+        return [0, int(st["mc"]), names, [d[0] for d in st["body"]]]
 
     def prepared(self, st, nm):
         _, objs, _ = self.bases_of(st)
@@ -177,13 +178,13 @@ def walk(entries, tag, i, plain=None):
             return ("NM",)
         lab = rest[0][2]
         if lkind(lab) == 1:
-            return ((lab, tag), "R") + walk(entries, tag, PARENT[lsig(lab)])
+            return ((lab, tag), "R") + walk(entries, tag, PARENT[lsig(lab)]) + ("|",) + chain(rest[1:])
         return ((lab, tag),) + chain(rest[1:])
     return chain(order)
 
 
 def plain_result(label, tag):
-    return ((label, tag),) + (("R",) if lkind(label) == 1 else ()) + ("USAGE",)
+    return ((label, tag),) + (("R", "USAGE", "|") if lkind(label) == 1 else ()) + ("USAGE",)
 
 
 def expect_attr(kind, payload, tag):
@@ -445,7 +446,9 @@ def check_world(ctx, stmts, stats=None, report=True):
                         stats["spec_checked"] += 1
                     if obs[ci][ni] in exps:
                         if e[0] == "table":
-                            row[-1] = ("table", cands[exps.index(obs[ci][ni])])
+                            match = [c for c, x in zip(cands, exps) if x == obs[ci][ni]]
+                            # two readings that cannot be told apart by the probes: nothing is claimed further down
+                            row[-1] = ("table", match[0]) if len(match) == 1 else ("unknown",)
                     else:
                         if kf42[ni]:
                             known("KF-42", k)
@@ -467,6 +470,7 @@ def nontrivial(stmts):
 def run(ctx):
     stats = collections.Counter()
     samples, seen, nontriv = [], set(), set()
+    samples_all = []
     budget = 35 if ctx.quick() else 500
     target = 200 if ctx.quick() else 5000
     n = 0
@@ -487,9 +491,16 @@ def run(ctx):
         stats["worlds_with_recurse"] += int(any(lkind(d[2]) == 1 for s in cls for d in s["body"]))
         if len(samples) < 3:
             samples.append(w)
+        if len(samples_all) < 25:
+            samples_all.append(w)
     cross = 0
-    if not ctx.quick():
-        pass
+    if not ctx.quick() and samples_all:
+        sub = [[51, replay_world(w, len(w) - 1)[2]] for w in samples_all[:25]]
+        a = model.run_cases(sub)
+        b = model.run_in_coq(sub)
+        cross = len(sub)
+        if a != b:
+            ctx.violation("extracted model and vm_compute disagree", {"cases": sub[:2]}, kind="extraction")
     return {"evaluations": n, "distinct_nontrivial": len(nontriv),
             "rule": "random sequences of 3-7 class statements (metaclass classes rooted at OvldBase or metaclass=OvldMC, plain mixin classes, 0-3 bases, depth <= 4), 0-3 definitions per method name (plain / @ovld / @extend_super, same signature repeated with p=.25, recurse bodies with p=.15), probe-all statements with a per-world density; distinct by statement list; non-trivial = some class has a base and some body defines a name at least twice",
             "samples": samples, "worlds": n, "steps": stats["steps"], "traces_validated_against_impl": stats["steps"],
@@ -500,7 +511,7 @@ def run(ctx):
             "attribute_kind_histogram": {k[5:]: v for k, v in stats.items() if k.startswith("attr:")},
             "names_merged_by_prepare": stats["prepared_names"],
             "worlds_multiple_bases": stats["worlds_multiple_bases"], "worlds_plain_mixins": stats["worlds_plain_mixins"],
-            "worlds_with_recurse": stats["worlds_with_recurse"]}
+            "worlds_with_recurse": stats["worlds_with_recurse"], "vm_compute_crosscheck_cases": cross}
 
 
 def replay(ctx, payload):
